@@ -1,7 +1,7 @@
 (* Properties_C01 — private objects are unreachable unless the normal user is logged in; token objects
    need read-write sessions.  Statements only. *)
 From Coq Require Import List NArith Bool.
-From SoftHSM Require Import Gen_Entry EntryFacts Gen_Const Gen_Pure Defs Core AccessFacts StepFacts Invariants PrivacyFacts FindFacts EntryModel Gen_Ops ExtractFacts.
+From SoftHSM Require Import Gen_Entry EntryFacts Gen_Const Gen_Pure Defs Core AccessFacts StepFacts Invariants PrivacyFacts FindFacts EntryModel Gen_Ops ExtractFacts CopyFacts.
 Import ListNotations.
 Local Open Scope N_scope.
 
@@ -155,14 +155,6 @@ Theorem C01_UnwrapKey_write_check : forall (e : C_UnwrapKey.env),
 Proof. exact UnwrapKey_guards. Qed.
 Print Assumptions C01_UnwrapKey_write_check.
 
-Theorem C01_CopyObject_read_check : forall (e : C_CopyObject.env),
-  bounded (C_CopyObject.haveRead e) -> C_CopyObject.zz_rest e = SENTINEL ->
-  C_CopyObject.app e = SENTINEL ->
-  let ogb := C_CopyObject.object_getBooleanValue e in
-  C_CopyObject.haveRead e (C_CopyObject.session_getState e) (ogb CKA_TOKEN false) (ogb CKA_PRIVATE true) = CKR_OK /\
-  ogb CKA_COPYABLE true <> 0.
-Proof. exact CopyObject_guards. Qed.
-Print Assumptions C01_CopyObject_read_check.
 
 Theorem C01_getattr_code_guard : forall (s : state) (h oh : N) (x : session) (rest ptr cnt : N),
   ptr <> 0 ->
@@ -248,3 +240,34 @@ Theorem C01_extract_needs_class : forall (e : extractObjectInformation.env),
   extractObjectInformation.hv1_bHasClass e = true.
 Proof. exact extract_needs_class. Qed.
 Print Assumptions C01_extract_needs_class.
+
+(* ---- C_CopyObject regenerated whole: access decisions, and everything done to the copy uses the copy's flags ---- *)
+
+Theorem C01_copy_access : forall (e : C_CopyObject.env),
+  fst (C_CopyObject.app e) = CKR_OK ->
+  let ogb := C_CopyObject.object_getBooleanValue e in
+  C_CopyObject.haveRead e (C_CopyObject.session_getState e) (ogb CKA_TOKEN false) (ogb CKA_PRIVATE true) = CKR_OK /\
+  C_CopyObject.haveWrite e (C_CopyObject.session_getState e) (C_CopyObject.hv1_isOnToken e) (C_CopyObject.hv1_isPrivate e) = CKR_OK /\
+  ogb CKA_COPYABLE true <> 0 /\
+  (ogb CKA_PRIVATE true <> 0 -> C_CopyObject.hv1_isPrivate e <> 0).
+Proof. exact copy_access. Qed.
+Print Assumptions C01_copy_access.
+
+Theorem C01_copy_uses_the_copys_privacy : forall (e : C_CopyObject.env),
+  let pv := copy_private e in
+  C_CopyObject.app e =
+  C_CopyObject.app
+    (C_CopyObject.set_newp11object_saveTemplate (fun tok _ t n op => C_CopyObject.newp11object_saveTemplate e tok pv t n op)
+    (C_CopyObject.set_sessionObjectStore_createObject (fun sl h _ => C_CopyObject.sessionObjectStore_createObject e sl h pv)
+    (C_CopyObject.set_handleManager_addTokenObject (fun sl _ o => C_CopyObject.handleManager_addTokenObject e sl pv o)
+    (C_CopyObject.set_handleManager_addSessionObject (fun sl h _ o => C_CopyObject.handleManager_addSessionObject e sl h pv o) e)))).
+Proof. exact copy_uses_the_copys_privacy. Qed.
+Print Assumptions C01_copy_uses_the_copys_privacy.
+
+Theorem C01_copy_uses_the_copys_storage : forall (e : C_CopyObject.env),
+  C_CopyObject.app e =
+  if copy_on_token e
+  then C_CopyObject.app (C_CopyObject.set_sessionObjectStore_createObject (fun _ _ _ => 0) (C_CopyObject.set_handleManager_addSessionObject (fun _ _ _ _ => 0) e))
+  else C_CopyObject.app (C_CopyObject.set_token_createObject 0 (C_CopyObject.set_handleManager_addTokenObject (fun _ _ _ => 0) e)).
+Proof. exact copy_uses_the_copys_storage. Qed.
+Print Assumptions C01_copy_uses_the_copys_storage.
